@@ -1122,7 +1122,10 @@ class OptionStore:
 
     def set_from_configure_command(self, D_args: T.Dict[OptionKey, T.Optional[str]]) -> bool:
         dirty = False
-        for key, valstr in D_args.items():
+        # As in the initialize_* calls, every buildtype goes first, so that a
+        # debug or optimization value given next to it (for the same project,
+        # in whatever textual order) is not hidden by the buildtype expansion.
+        for key, valstr in self.buildtype_first(D_args).items():
             if valstr is not None:
                 dirty |= self.set_user_option(key, valstr)
                 continue
@@ -1316,6 +1319,9 @@ class OptionStore:
                                                                                                      machine_file_options_in)
         project_default_options = self.buildtype_first(project_default_options)
         machine_file_options = self.buildtype_first(machine_file_options)
+        # cmdline.parse_cmd_line_options only knows the global buildtype;
+        # `-D:buildtype` is one as well
+        cmd_line_options = self.buildtype_first(cmd_line_options)
         for key, valstr in project_default_options.items():
             # Due to backwards compatibility we ignore build-machine options
             # when building natively.
